@@ -23,10 +23,23 @@ package consistenthash
 //@   ensures [C13,C14] (c.enableWeight ? w : c.replicates) <= 0 ==> result == (c.enableWeight ? w : c.replicates)
 //@   safety [C13]
 //
+// Ring lookup (C14): the index chosen is a position j of the sorted key list whose key is >= the wanted key
+// while the key before it is smaller (with the list sorted ascending, as c.sort() leaves it, that is the first
+// ring point >= key), or position 0 when the last key is smaller than the wanted key (wrap-around); the
+// endpoint returned is the one the ring maps that key to. sort.Search is applied through the contract of its
+// predicate closure (the binary-search invariant: predicate true at the result, false just before it).
+//
+//@ func (*ConsistentHash).FindInt32$1
+//@   requires *c != nil && 0 <= x && x < len(c.sortedKeys)
+//@   pure
+//@   ensures result == (c.sortedKeys[x] >= *key)
+//@   safety [C13]
+//
 //@ func (*ConsistentHash).FindInt32
 //@   requires chInv(c)
 //@   pure
 //@   ensures [C13] (len(c.sortedKeys) == 0) == !result1
+//@   ensures [C14] len(c.sortedKeys) > 0 ==> (exists j :: 0 <= j && j < len(c.sortedKeys) && result0 == c.hashRing[c.sortedKeys[j]] && ((c.sortedKeys[j] >= key && (j == 0 || c.sortedKeys[j - 1] < key)) || (j == 0 && c.sortedKeys[len(c.sortedKeys) - 1] < key)))
 //@   safety [C13]
 //
 //@ func (*ConsistentHash).Find
